@@ -41,6 +41,9 @@ pub struct ItemSpec {
     pub keep_derives: Vec<String>,
     #[serde(default)]
     pub skip_rules: Vec<String>,
+    /// N15: `?` on Result written out as its match
+    #[serde(default)]
+    pub desugar_try: bool,
     /// N14: explicit `panic!` is a deliberate abort
     #[serde(default)]
     pub abort_on_panic: bool,
